@@ -112,9 +112,9 @@ func init() {
 		return clusterCheckSched(prop, tier, p, []string{"leader_present", "op_acked", "config_changed"}, append([]string{"suites nvsnaplease4 / nvlease5 (timed, lease reads at a leader that reaches only non-voting members): a non-voter must not contribute to a leadership confirmation; reported here as C17/...", "suite memsnap3 (membership changes with snapshots): a snapshot must carry the configuration committed at its label, otherwise a node restored from it applies a configuration sequence of its own (reported here as C10/snapshot-wrong-configuration)"}, untimedAssumptions...), []string{"C01", "C02", "C07", "C17", "C10:snapshot-wrong-configuration"}, sp)
 	}
 	checks["C16"] = func(prop, tier string) int {
-		p := []plan{{"sticky3r0-d3", 60}, {"sticky3r1-d2", 50}, {"sticky3r2-d2", 50}, {"rejoin3r0-d4", 30}, {"rejoin3r1-d4", 30}, {"rejoin3r2-d4", 30}, {"stickysnap3-d4", 30}, {"contested3r0-d3", 30}, {"contested3r1-d3", 30}, {"contested3r2-d3", 30}, {"removed3-d4", 30}}
+		p := []plan{{"sticky3r0-d3", 60}, {"sticky3r1-d2", 50}, {"sticky3r2-d2", 50}, {"rejoin3r0-d4", 30}, {"rejoin3r1-d4", 30}, {"rejoin3r2-d4", 30}, {"stickysnap3-d4", 30}, {"contested3r0-d3", 30}, {"contested3r1-d3", 30}, {"contested3r2-d3", 30}, {"removed3-d4", 30}, {"candcut3-d4", 30}, {"removedcand3-d4", 30}}
 		if tier == "thorough" {
-			p = []plan{{"sticky3r0-d4", 500}, {"sticky3r1-d4", 500}, {"sticky3r2-d4", 500}, {"rejoin3r0-d5", 300}, {"rejoin3r1-d5", 300}, {"rejoin3r2-d5", 300}, {"stickysnap3-d6", 300}, {"contested3r0-d5", 300}, {"contested3r1-d5", 300}, {"contested3r2-d5", 300}, {"removed3-d6", 300}}
+			p = []plan{{"sticky3r0-d4", 500}, {"sticky3r1-d4", 500}, {"sticky3r2-d4", 500}, {"rejoin3r0-d5", 300}, {"rejoin3r1-d5", 300}, {"rejoin3r2-d5", 300}, {"stickysnap3-d6", 300}, {"contested3r0-d5", 300}, {"contested3r1-d5", 300}, {"contested3r2-d5", 300}, {"removed3-d6", 300}, {"candcut3-d6", 300}, {"removedcand3-d6", 300}}
 		}
 		return clusterCheck(prop, tier, p, []string{"leader_present", "minority_campaigned", "node_down"}, []string{
 			"timed mode: global clock in heartbeat intervals (election timeout 6, lease 2), messages are delivered within the interval unless a link is cut; election timeouts staggered per node, all rotations enumerated",
